@@ -230,7 +230,7 @@ pub fn run() -> i32 {
     quiet_panics();
     let th = rep.thorough();
     let tot = std::sync::Mutex::new(Feat::default());
-    let (b_r, b_t) = if th { (12, 12) } else { (10, 10) };
+    let (b_r, b_t) = if th { (13, 12) } else { (10, 10) };
     exhaustive_block(&rep, &tot, &[0, 1], b_r, b_t, &[5, 6, 8]);
     let (n_r, n_t) = if th { (8, 8) } else { (7, 7) };
     exhaustive_block(&rep, &tot, &[0, 1, 4], n_r, n_t, &[5, 6, 8]);
